@@ -3,7 +3,7 @@
 # confirm it against /repo HEAD (tools/seedconfirm.sh) and run the property's quick check on it (tools/seedtest.py).
 ID=$1; X=$2; WHAT=$3; NEEDS=$4; shift 4
 cd /verif
-rm -rf /tmp/seed-$ID-w3; mkdir -p /tmp/seed-$ID-w3/out; cp -r /tmp/seed3-$ID/out/$X /tmp/seed-$ID-w3/out/$X
+rm -rf /tmp/seed-$ID-w3; mkdir -p /tmp/seed-$ID-w3/out; cp -r ${SEEDSRC:-/tmp/seed3}-$ID/out/$X /tmp/seed-$ID-w3/out/$X
 python3 - "$ID" "$X" "$WHAT" "$NEEDS" <<'PY'
 import sys, json, os, shutil
 pid, x, what, needs = sys.argv[1:5]
@@ -15,7 +15,7 @@ if os.path.exists(d + '/demo'): shutil.rmtree(d + '/demo')
 shutil.copytree(src + '/demo', d + '/demo', ignore=shutil.ignore_patterns('_build', '*.o', 'build'))
 json.dump({"property": pid, "name": "%s-%s" % (pid, x), "what": what, "needs": needs,
            "confirmed": "pending",
-           "author": "fresh sub-agent (wave 3) given only the property text and one-line descriptions of the earlier seeds to avoid"},
+           "author": "fresh sub-agent (wave %s) given only the property text and one-line descriptions of the earlier seeds to avoid" % ("4" if x in "GH" else "3")},
           open(d + '/meta.json', 'w'), indent=1)
 PY
 rm -rf /tmp/seed-$ID-w3
